@@ -8,11 +8,17 @@ def nAcct : Nat := 6
 def nKey : Nat := 4
 
 /-- canonical logical content of a world snapshot over the universe (used for hash numbering) -/
-abbrev Canon := List (Option (Int × List Nat))
+structure CanonAcct where
+  bal : Int
+  code : Option Nat
+  graph : Option (Nat × Nat)
+  vals : List Nat
+deriving DecidableEq
+abbrev Canon := List (Option CanonAcct)
 
 def canonOf (ws : WSnap) : Canon :=
   (List.range nAcct).map fun a =>
-    (absWSnap ws a).map fun d => (d.bal, (List.range nKey).map fun k => (d.get k).getD 0)
+    (absWSnap ws a).map fun d => (⟨d.bal, d.code, d.graph, (List.range nKey).map fun k => (d.get k).getD 0⟩ : CanonAcct)
 
 structure St where
   h : Hist
@@ -43,17 +49,22 @@ def hashNo (s : St) (ws : WSnap) : St × String :=
   | some i => (s, s!"h{i}")
   | none => ({ s with seen := s.seen ++ [c] }, s!"h{s.seen.length}")
 
+def showGraph : Option Graph → String
+  | some (nh, g) => s!"{nh}/{g}"
+  | none => "-"
+
 def dumpAcct (d : Option AcctData) : String :=
   match d with
   | none => "-"
   | some d => s!"{d.bal}:" ++ ",".intercalate ((List.range nKey).map fun k => toString ((d.get k).getD 0))
+      ++ ":" ++ (match d.code with | some c => toString c | none => "-") ++ ":" ++ showGraph d.graph
 
 /-- `read i`: what GetAccountSnapshot of the world snapshot returns per account (nil → "-") -/
 def dump (ws : WSnap) : String :=
   "|".intercalate ((List.range nAcct).map fun a =>
     match ws a with
     | none => "-"
-    | some s => dumpAcct (some (dataOf s.bal s.store)))
+    | some s => dumpAcct (some (dataOf s.hdr s.store)))
 
 def okA (a : Nat) : Bool := a < nAcct
 def okK (k : Nat) : Bool := k < nKey
@@ -75,7 +86,7 @@ def step (s : St) (toks : List String) : St × String :=
       if okA a && okK k then let (w, old) := s.h.w.deleteValue a k; (setW s w, toString old) else (s, "bad-op")
     | _, _ => (s, "bad-op")
   | ["getbal", a] => match a.toNat? with
-    | some a => if okA a then let (w, st) := s.h.w.getAccountState a; (setW s w, toString st.bal) else (s, "bad-op")
+    | some a => if okA a then let (w, st) := s.h.w.getAccountState a; (setW s w, toString st.hdr.bal) else (s, "bad-op")
     | none => (s, "bad-op")
   | ["get", a, k] => match a.toNat?, k.toNat? with
     | some a, some k =>
@@ -88,7 +99,7 @@ def step (s : St) (toks : List String) : St × String :=
     | some a =>
       if okA a then
         let (w, sn) := s.h.w.getAccountSnapshot a
-        (setW s w, toString ((sn.map (·.bal)).getD 0))
+        (setW s w, toString ((sn.map (·.hdr.bal)).getD 0))
       else (s, "bad-op")
     | none => (s, "bad-op")
   | ["sget", a, k] => match a.toNat?, k.toNat? with
@@ -98,6 +109,32 @@ def step (s : St) (toks : List String) : St × String :=
         (setW s w, toString ((sn.bind fun x => kvGet (x.store.getD []) k).getD 0))
       else (s, "bad-op")
     | _, _ => (s, "bad-op")
+  | ["deploy", a, c] => match a.toNat?, c.toNat? with
+    | some a, some c => if okA a && c > 0 && c < 1000000 then (setW s (s.h.w.deploy a c), "ok") else (s, "bad-op")
+    | _, _ => (s, "bad-op")
+  | ["sog", a, nh, g] => match a.toNat?, nh.toNat?, g.toNat? with
+    | some a, some nh, some g =>
+      if okA a && nh < 1000 && g < 1000000 then
+        let (_, st) := s.h.w.getAccountState a
+        (setW s (s.h.w.setObjGraph a nh g), if st.hdr.code.isSome then "ok" else "nocontract")
+      else (s, "bad-op")
+    | _, _, _ => (s, "bad-op")
+  | ["gog", a] => match a.toNat? with
+    | some a =>
+      if okA a then
+        let (w, st) := s.h.w.getAccountState a
+        (setW s w, if st.hdr.code.isSome then showGraph st.hdr.graph else "nocontract")
+      else (s, "bad-op")
+    | none => (s, "bad-op")
+  | ["sgog", a] => match a.toNat? with
+    | some a =>
+      if okA a then
+        let (w, sn) := s.h.w.getAccountSnapshot a
+        (setW s w, match sn with
+          | some x => if x.hdr.code.isSome then showGraph x.hdr.graph else "nocontract"
+          | none => "nocontract")
+      else (s, "bad-op")
+    | none => (s, "bad-op")
   | ["snap"] =>
     let (w, ws) := s.h.w.getSnapshot
     let ws := (boxSnap ws).f
